@@ -481,6 +481,10 @@ def dispatch(E, c, args):
             if v.variant == good:
                 return E.call_value(args[2], [v.fields[0]])
             return args[1]
+        if meth == "map_or_else":
+            if v.variant == good:
+                return E.call_value(args[2], [v.fields[0]])
+            return E.call_value(args[1], [] if isopt else [v.fields[0]])
         if meth in ("as_ref", "as_mut"):
             r = args[0]
             while isinstance(r, VRef) and isinstance(E.read_ref(r), VRef):
